@@ -3146,25 +3146,23 @@ Vgetvgroups(int32    id,       /* IN: file id or vgroup id */
                     HGOTO_ERROR(DFE_BADPTR, FAIL);
 
                 /* If this vgroup is internally created by the lib, then just
-                   skip it; otherwise, record its ref# according to caller's
+                   skip it; otherwise (no class name, or a class name that is
+                   not an internal one), record its ref# according to caller's
                    specification of where to start and how many to retrieve */
-                if (subvg->vgclass != NULL) {
-                    /* Make sure this vgroup is not an internal one */
-                    if (Visinternal(subvg->vgclass) == FALSE) {
-                        /* Make sure to count only from vg number start_vg */
-                        if (user_vgs >= start_vg)
-                            /* If caller requests for reference numbers */
-                            if (refarray != NULL) {
-                                refarray[nactual_vgs] = (uint16)vg->ref[ii];
+                if (subvg->vgclass == NULL || Visinternal(subvg->vgclass) == FALSE) {
+                    /* Make sure to count only from vg number start_vg */
+                    if (user_vgs >= start_vg)
+                        /* If caller requests for reference numbers */
+                        if (refarray != NULL) {
+                            refarray[nactual_vgs] = (uint16)vg->ref[ii];
 
-                                /* Increment the actual number of user-created
-                                   vgs to be retrieved */
-                                nactual_vgs++;
-                            }
+                            /* Increment the actual number of user-created
+                               vgs to be retrieved */
+                            nactual_vgs++;
+                        }
 
-                        /* Increment the number of user-created vgs */
-                        user_vgs++;
-                    }
+                    /* Increment the number of user-created vgs */
+                    user_vgs++;
                 }
             } /* this sub element is a vgroup */
         }     /* for */
